@@ -8,6 +8,40 @@ import os
 ROOT = os.path.dirname(os.path.dirname(os.path.abspath(__file__)))
 
 CHECKS = {
+    "C01": dict(
+        category="model_checking",
+        technique="explicit-state breadth-first search over the real loader/matcher transition function "
+                  "(states = canonical open-matcher state, rebuilt by replaying event histories) for every schema "
+                  "of a generated family, every transition compared with an independent reference conformance predicate",
+        text="For every schema of the family (ordered selections of <= 2 items from a 54-item menu as container "
+             "under test; placements top/1/2 levels down; key types basic-key/identifier/ipaddr-or-hostname; "
+             "abstract type with 0..3 implementers, derived types, required key inside optional section, rejecting / "
+             "wrapping section datatypes) all event sequences up to the depth bound are explored breadth-first, "
+             "deduplicated on the implementation's open-matcher state; the completed text of every transition is "
+             "loaded with ZConfig.loadConfigFile and accept/reject is compared with vz.ref.match.decide.  "
+             "Exhaustive within the bounds; the model (reference) is compared with the code on every transition, "
+             "so traces_validated_against_impl == transitions.",
+        note="Trusted: vz/ref/match.py, vz/gen/schema.py (renderer).  UNSPEC (executed, not compared): header "
+             "name equal to a reserved key / fixed section name while a wildcard slot fits (u1), several slots fit "
+             "or an earlier type-fitting wildcard slot refuses the name (u2), key spelled like a fixed section "
+             "name while a '+' key exists (u3).  Not generated: required together with defaults on multikey / "
+             "wildcard keys (u4).",
+        design="DESIGN.md section 3, C01", engine="E2 bfs"),
+    "C02": dict(
+        category="model_checking",
+        technique="the C01 explicit-state breadth-first search with a second oracle: canonical value tree of the "
+                  "returned object == tree built by the reference model, plus aliasing / attribute-set invariants "
+                  "and a mutate-then-reload differential on every accepted node",
+        text="Schemas: one item of every kind x 12 standard datatypes (token table with independent expected "
+             "values), the C01 string/integer/section menu with wrapping and rejecting section datatypes, "
+             "placements 0-2, three key types.  On every accepted node: tree(config) == reference tree (attribute "
+             "set and order, converted values, defaults, wildcard maps keyed by the normalised key, "
+             "all-or-nothing wildcard defaults, multisection order, section datatype applied, type and lower-cased "
+             "name); no list/dict object occurs twice in one result; public attributes == getSectionAttributes(); "
+             "after mutating every container of the result a second load gives the reference tree again.",
+        note="Trusted: vz/ref/match.py incl. VALUE_TABLE; vz/harness/load.py tree().  Verdict disagreements are "
+             "C01's and only counted.",
+        design="DESIGN.md section 3, C02", engine="E2 bfs"),
     "C04": dict(
         category="exploration",
         technique="exhaustive bounded enumeration of inputs (all strings <= n over a 10-symbol "
